@@ -22,6 +22,28 @@ func cleanArgs(args []string) []string {
 	return out
 }
 
+// cleanArgsIn also maps absolute spellings and spellings through the parent directory
+// ("/abs/work/a", "../w/a") to the path relative to the repository root.
+func cleanArgsIn(c *Ctx, args []string) []string {
+	out := make([]string, len(args))
+	for i, a := range args {
+		abs := a
+		if !path.IsAbs(a) {
+			abs = path.Join(c.Box.Work, a)
+		}
+		abs = path.Clean(abs)
+		switch {
+		case abs == c.Box.Work:
+			out[i] = "."
+		case strings.HasPrefix(abs, c.Box.Work+"/"):
+			out[i] = strings.TrimPrefix(abs, c.Box.Work+"/")
+		default:
+			out[i] = path.Clean(a)
+		}
+	}
+	return out
+}
+
 func blobID(content string) string { return gitfmt.HashObject("blob", []byte(content)) }
 
 // mapsEqual compares two path->id maps and describes the first differences.
@@ -72,7 +94,7 @@ func oracleAdd(c *Ctx) error {
 	if c.Res.Panic || c.Res.Timeout {
 		return fmt.Errorf("add crashed or hung")
 	}
-	args := cleanArgs(c.Step.Args[1:])
+	args := cleanArgsIn(c, c.Step.Args[1:])
 	pre := c.Pre
 	// classification of the arguments
 	refuse := len(args) == 0
